@@ -282,7 +282,20 @@ def r4(db, rep):
                     rep.ok("R4-rejection", key, facts.loc(f, n), verdict)
                 else:
                     rep.violation("R4-rejection", key, facts.loc(f, n), "the result of inet_pton does not gate success: invalid text can be accepted")
-    if n_pton < 2:
+    # lenient numeric parsers are not validators: %u / strtoul accept signs, blanks, leading zeros and wrap large values
+    LENIENT = ("sscanf", "scanf", "fscanf", "strtoul", "strtol", "strtoull", "atoi", "atol", "stoi", "stoul", "stol")
+    n_len = 0
+    for f in db.functions.values():
+        q = f.get("qual", "")
+        if not f.get("body") or not (q.startswith("Tins::IPv4Address::") or q.startswith("Tins::IPv6Address::")):
+            continue
+        for n in facts.fn_nodes(f):
+            if n["k"] == "CallExpr" and n.get("cname") in LENIENT:
+                n_len += 1
+                rep.violation("R4-rejection", "%s:%s" % (q.replace("Tins::", ""), n["cname"]), facts.loc(f, n),
+                              "the address text is parsed with %s(): it accepts leading blanks, a sign, leading zeros and values that wrap, "
+                              "so strings that are not valid addresses are accepted instead of being rejected with invalid_address" % n["cname"])
+    if n_pton < 2 and not n_len:
         rep.analysis_broken("expected inet_pton in the IPv4 and IPv6 text constructors, found %d call(s)" % n_pton)
     hw_parser(db, rep)
 
